@@ -88,6 +88,28 @@ Definition escape (cs : list N) : eres :=
       else EErr
   end.
 
+(* the body of a string literal (between the quotes, no interpolation): escapes decoded one after the other,
+   as parse_string does; fuel = number of code points *)
+Fixpoint decode (fuel : nat) (cs : list N) : outcome (list N) :=
+  match fuel with
+  | O => Ok []
+  | S f =>
+      match cs with
+      | [] => Ok []
+      | c :: t =>
+          if c =? 92 then
+            match escape t with
+            | EChar x r => do rest <- decode f r; Ok (x :: rest)
+            | ESkip r => decode f r
+            | EErr => Err
+            | EPanic => Panic
+            end
+          else do rest <- decode f t; Ok (c :: rest)
+      end
+  end.
+Definition enc_decode (cs : list N) : list N :=
+  match decode (S (length cs)) cs with Ok r => 0 :: r | Err => [2] | _ => [4] end.
+
 (* number of leading hex digits *)
 Fixpoint hex_run (cs : list N) : N :=
   match cs with
